@@ -160,6 +160,38 @@ func genMapSession(r *rand.Rand, i int) J {
 	if n <= 3 {
 		c["anyorder"] = n
 	}
+	if i%5 == 4 {
+		// pointers two and three levels down inside otherwise plain arrays and maps: whatever turns the map, its pairs or
+		// its values into text shows what they point to - never an address (which a second process would print differently)
+		pairs4 := []any{}
+		rep := J{}
+		for k := 0; k < n; k++ {
+			key := string(rune('a' + k))
+			switch k % 3 {
+			case 0:
+				pairs4 = append(pairs4, []any{bs(key), vArr(vInt(k), vArr(vStr("x"), vInt(7)))})
+				rep["m/"+key+"/1/0"] = "ptr"
+			case 1:
+				pairs4 = append(pairs4, []any{bs(key), vMap("k", vArr(vInt(1), vStr("y")))})
+				rep["m/"+key+"/k/1"] = "ptr"
+			default:
+				pairs4 = append(pairs4, []any{bs(key), vArr(vArr(vArr(vInt(k))))})
+				rep["m/"+key+"/0/0/0"] = "ptr"
+			}
+		}
+		c["envs"] = []any{[]any{[]any{bs("m"), J{"k": "map", "v": pairs4}}, []any{bs("s"), vStr("v")}}}
+		c["reprs"] = []any{rep}
+		c["templates"] = []any{
+			[]any{nObj(eVar("m"))},
+			mapLoop("m"),
+			[]any{nObj(eFilter(eVar("m"), "join", eLit(vStr(","))))},
+			[]any{nObj(eFilter(eVar("m"), "append", eVar("s")))},
+			[]any{J{"t": "for", "tag": "for", "var": bs("p"), "coll": eVar("m"), "body": []any{nObj(eVar("p")), nText(";"), nObj(eFilter(eIdx(eVar("p"), eLit(vInt(1))), "join", eLit(vStr("+"))))}}},
+			[]any{nObj(eFilter(eFilter(eVar("m"), "reverse"), "join", eLit(vStr("|"))))},
+		}
+		delete(c, "anyorder")
+		return c
+	}
 	if i%4 == 3 {
 		// a map whose values are arrays and maps, several of them equal - and, in the Go bindings, one shared value
 		// ("@share"); the whole map, its pairs and its values are turned into text
